@@ -153,7 +153,13 @@ def rule_alloc(chk, prefix="C02"):
             continue
         if s.func in list(ctx.p.all_funcs()):
             callers.setdefault(s.func, []).append(s)
-    chk.instances("%s.alloc:allocation sites" % prefix, len(callers), 5)
+    # the five sites confirmed on the pinned tree must each take a position
+    for q in ("Action.serialize_task_id", "Action._start", "Action.finish", "Action.child", "Action.log"):
+        g = ctx.func("_action", q)
+        if g not in callers:
+            chk.bad("%s.alloc" % prefix, "%s:one-position" % g.fq, chk.where(g),
+                    "%s no longer takes a position from the allocator: what it emits/hands out shares its level with another message (duplicate level, or a remote id that collides)" % q)
+    chk.instances("%s.alloc:allocation sites" % prefix, len(callers), 3)
     for f, ss in sorted(callers.items(), key=lambda kv: kv[0].fq):
         cfg = ctx.cfg(f)
         calls = ctx.calls_to(f, ntl)
@@ -426,6 +432,7 @@ def run(chk):
     rule_uuid(chk)
     rule_exit_order(chk)
     rule_report_path(chk)
-    from . import c03
+    from . import c03, c06
     c03.rule_start(chk)
     c03.rule_once(chk)
+    c06.rule_once(chk)  # a serialized position continued twice duplicates every level below it
